@@ -2,6 +2,7 @@ import NrDaemon.Model.Limits
 import NrDaemon.Lemmas.Reservoir
 import NrDaemon.Lemmas.Metrics
 import NrDaemon.Props.C06
+import NrDaemon.Lemmas.AppLimit
 /-!
   C05 — buffers are bounded by the negotiated capacities and counted exactly.
 -/
@@ -134,3 +135,25 @@ theorem C05_metrics_unforced_bound (t : MTable) (k : MKey) (m : Metric) (hu : m.
 theorem C05_documented_capacities :
     MaxMetrics = 2000 ∧ MaxErrors = 20 ∧ MaxSlowSQLs = 10 ∧ MaxRegularTraces = 1 ∧ MaxForcePersistTraces = 10 ∧
     MaxSyntheticsTraces = 20 ∧ AppLimit = 250 := by decide
+
+/-! ## The application cap over all histories of the processor loop (`Lemmas/AppLimit.lean`) -/
+
+/-- **C05 (never more than 250 applications, all histories).**  Start the processor with no application; after any
+sequence of agent queries (known and unknown applications, with or without run ids), transactions, harvest triggers,
+replies of any kind in any order and clock advances, every list of pairwise distinct applications the processor knows
+has at most `AppLimit` (= 250, regenerated from limits.go) entries.  Forgotten (inactive) applications free their
+place. -/
+theorem C05_app_limit_all_histories (s : PState) (es : List PEvent) (h0 : s.apps = []) (l : List String)
+    (hnd : l.Nodup) (hk : ∀ h ∈ l, (appCfg (s.runEvents es) h).isSome) : l.length ≤ 250 := by
+  have hb : AppsBounded s := by
+    intro l' ht
+    have := tracked_le_length s l' ht
+    simp [h0] at this
+    simp [this]
+  have := runEvents_appsBounded s es hb l ⟨hnd, hk⟩
+  simpa [Gen.Limits.AppLimit] using this
+
+/-- … and the cap is not vacuous: below it an unknown application is admitted, at it the query changes nothing -/
+theorem C05_app_limit_gate (s : PState) (rid : Option String) (cfg : AppCfg)
+    (hn : getApp s cfg.handle = none) (hl : s.apps.length ≥ 250) : (processAppInfo s rid cfg).1 = s :=
+  processAppInfo_full s rid cfg hn (by simpa [Gen.Limits.AppLimit] using hl)
